@@ -200,7 +200,7 @@ Definition frag_text env rec (diff:bool) (chain:ctx) (stop:nat) (w:word) (f:frag
   : res str :=
   match f with
   | FLit v => Ok v
-  | FVar v => do ws <- lookup_var env rec diff chain stop w v (diff_text v nx); Ok (vjoin_sp (map wv ws))
+  | FVar v => do ws <- lookup_var env rec diff chain stop w v (dtext env rec diff chain stop w v nx); Ok (vjoin_sp (map wv ws))
   end.
 
 Lemma mapM_result_value : forall env rec diff chain stop w frs,
@@ -211,7 +211,7 @@ Proof.
   cbn [mapM_tl]. destruct f as [v|v]; cbn [frag_result frag_text bind].
   - rewrite <- IH.
     destruct (mapM_tl (frag_result env rec diff chain stop w true) r); cbn; reflexivity.
-  - destruct (lookup_var env rec diff chain stop w v (diff_text v r)) as [vws| |]; cbn [bind negb]; try reflexivity.
+  - destruct (lookup_var env rec diff chain stop w v (dtext env rec diff chain stop w v r)) as [vws| |]; cbn [bind negb]; try reflexivity.
     rewrite <- IH.
     destruct (mapM_tl (frag_result env rec diff chain stop w true) r); cbn; reflexivity.
 Qed.
@@ -228,7 +228,7 @@ Lemma resolve_word_shape : forall env rec diff chain stop w force frs,
   fragments_of_word w = Ok (force, true, frs) ->
   (force = false ->
      exists v, frs = [FVar v] /\ wq w = QN /\
-               resolve_word env rec diff chain stop w = lookup_var env rec diff chain stop w v (diff_text v []))
+               resolve_word env rec diff chain stop w = lookup_var env rec diff chain stop w v (dtext env rec diff chain stop w v []))
   /\ (force = true ->
      resolve_word env rec diff chain stop w =
        do ts <- mapM_tl (frag_text env rec diff chain stop w) frs; Ok [mkword (List.concat ts) Q2 0]).
@@ -242,7 +242,7 @@ Proof.
     exists v. split; [reflexivity|]. split.
     { unfold isq in Hisq. destruct (wq w); try discriminate; reflexivity. }
     unfold resolve_word. rewrite Hq1, Hf. cbn [bind mapM_tl frag_result].
-    destruct (lookup_var env rec diff chain stop w v (diff_text v [])); reflexivity.
+    destruct (lookup_var env rec diff chain stop w v (dtext env rec diff chain stop w v [])); reflexivity.
   - unfold resolve_word. rewrite Hq1, Hf. cbn [bind].
     rewrite <- mapM_result_value.
     destruct (mapM_tl (frag_result env rec diff chain stop w true) frs); reflexivity.
@@ -708,7 +708,7 @@ Section EnvMono.
     destruct f as [v|v]; cbn [frag_result] in *.
     - rewrite Hb. exact H.
     - apply bind_ok in Hb. destruct Hb as [vws [Hv Hb]].
-      rewrite (lookup_var_env_mono diff _ _ _ _ _ (diff_text v r) _ Hv). cbn [bind]. rewrite Hb. exact H.
+      erewrite lookup_var_env_mono by exact Hv. cbn [bind]. rewrite Hb. exact H.
   Qed.
 
   Lemma resolve_words_env_mono : forall diff chain stop ws out,
